@@ -163,6 +163,7 @@ Flat(res, cx) == IF cx = None THEN FlatKids(res.c, None, None) ELSE FlatKids(res
 IsComment(e) == e.n = None
 ElKey(e) == <<e.ns, e.n>>
 \* Elements the PARSER creates without any tag for them (HTML standard, tree construction):
+\* ASSUMED (reading of "corresponds to a tag the sanitizer let through"): exactly the following elements need no tag.
 \*  (a) html, head, body: "before html" / "before head" / "after head" insert them for every document, and the fragment
 \*      algorithm's root; tags with these names only ever merge attributes into them.  They are not on html5lib's
 \*      allow-list and are therefore written as text, so every such element of a re-parsed tree is parser-made.
@@ -185,7 +186,7 @@ IsFormatting(e) == e.ns = NS_html /\ e.n \in {N_a, N_b, N_big, N_code, N_em, N_f
                                               N_strong, N_tt, N_u}
 Count(seq, Q(_)) == Cardinality({i \in 1..Len(seq) : Q(seq[i])})
 \* An attribute of a re-parsed element that a passed tag of the same element name carries IDENTICALLY came through the
-\* sanitizer unchanged.  For such an attribute the allow-list and URI-scheme clauses are still judged here; its data: content
+\* sanitizer unchanged.  ASSUMED (division of labour with C09): for such an attribute the allow-list and URI-scheme clauses are still judged here; its data: content
 \* type and its CSS are C09's question (its open findings data-content-type-after-stripping and css-url-function-survives live
 \* there): they are not effects of serialisation and re-parsing.
 SameAsPassed(e, x, passed) == \E i \in 1..Len(passed) : passed[i].n = e.n /\ passed[i].ns = e.ns
@@ -200,7 +201,7 @@ Viol(c, e, k) == [c |-> c, e |-> IF IsComment(e) THEN <<>> ELSE e.n, ns |-> IF I
 \* SafeTree: the violated clauses of one node (C09's SafeTok clauses, on tree nodes)
 NodeClauses(e, L, passed) ==
     IF IsComment(e) THEN {Viol("comment", e, <<>>)}
-    ELSE (IF e.ns = NS_html /\ e.n \in {N_html, N_head, N_body} THEN {}
+    ELSE (IF e.ns = NS_html /\ e.n \in {N_html, N_head, N_body} THEN {}       \* ASSUMED: see ParserMade (a)
           ELSE IF S!AllowedEl(PseudoTok(e), L) THEN {} ELSE {Viol("element", e, <<>>)})
          \cup UNION {{Viol(c, e, e.a[i][2]) : c \in AttrClausesT(e, e.a[i], L, passed)} : i \in 1..Len(e.a)}
 \* Corresponds: per element key, the elements that are not parser-made are covered by as many passed tags
